@@ -30,6 +30,8 @@ def const_repr(v):
         return ("frozenset",) + tuple(sorted((const_repr(x) for x in v), key=repr))
     if isinstance(v, types.CodeType):
         return ("code", v.co_name)
+    if isinstance(v, int) and not isinstance(v, bool) and abs(v) >= 1 << 200:
+        return ("int", "hex:" + hex(v))      # repr() of a very long int raises on interpreters with a digit limit
     return (type(v).__name__, v)
 
 
@@ -53,7 +55,10 @@ def code_diff(a, b, path="code"):
 
 
 def _short(x):
-    r = repr(x)
+    try:
+        r = repr(x)
+    except ValueError:          # a very long int under the interpreter's digit limit
+        r = "<%s whose repr() is refused by the int digit limit>" % type(x).__name__
     return r if len(r) < 160 else r[:150] + "...(%d chars)" % len(r)
 
 
